@@ -140,6 +140,15 @@ Theorem C03_checker_default_formula : forall amp w e_ s n_ e n,
 Proof. exact checker_default_formula. Qed.
 Print Assumptions C03_checker_default_formula.
 
+(** w_east / w_north: each direction defaults independently of the other *)
+Theorem C03_checker_options : forall amp w e_ s n_ we wn e n,
+  checker_opt amp w e_ s n_ None None e n = checker amp ((e_ - w) / 2) ((n_ - s) / 2) e n /\
+  checker_opt amp w e_ s n_ (Some we) None e n = checker amp we ((n_ - s) / 2) e n /\
+  checker_opt amp w e_ s n_ None (Some wn) e n = checker amp ((e_ - w) / 2) wn e n /\
+  checker_opt amp w e_ s n_ (Some we) (Some wn) e n = checker amp we wn e n.
+Proof. exact checker_options. Qed.
+Print Assumptions C03_checker_options.
+
 Theorem C03_checker_periodic : forall amp we wn e n, we <> 0 -> wn <> 0 ->
   checker amp we wn (e + we) n = checker amp we wn e n /\
   checker amp we wn e (n + wn) = checker amp we wn e n.
